@@ -390,13 +390,11 @@ func cmdCheck(args []string) int {
 		fmt.Printf("  obligation %s (%s) at %s: %s -- %s\n", j.obl.Name, j.obl.Kind, j.obl.Pos, trunc(j.obl.Text, 200), j.res.Status)
 		rc = 1
 	}
+	// A unit whose contract no longer fits the code (a renamed local that a loop invariant names, a construct outside the
+	// subset, a function that is gone) cannot be decided: that is reported, loudly, but it is not a violation -- an
+	// undischarged proof is not a counterexample.
 	for _, u := range lostUnits {
-		violations++
-		os.MkdirAll(replayDir, 0o755)
-		path := filepath.Join(replayDir, fmt.Sprintf("lost_unit_%d.txt", violations))
-		os.WriteFile(path, []byte("verification unit cannot be built any more:\n"+u+"\n"), 0o644)
-		fmt.Printf("VIOLATION property=%s replay=%s no-failing-input-found\n  %s\n", id, path, u)
-		rc = 1
+		fmt.Printf("UNDECIDED-UNIT property=%s: the contract of this unit does not fit the current code, nothing is claimed for it: %s\n", id, trunc(u, 300))
 	}
 	sort.Strings(knownHit)
 	for _, k := range knownHit {
@@ -445,13 +443,21 @@ func cmdCheck(args []string) int {
 		}
 		st := selfTest(id)
 		thoroughExtra["selftest"] = st
-		det := 0
+		det, nseed, quiet, nharm := 0, 0, 0, 0
 		for _, x := range st {
+			if x["harmless"] == true {
+				nharm++
+				if x["quiet"] == true {
+					quiet++
+				}
+				continue
+			}
+			nseed++
 			if x["detected"] == true {
 				det++
 			}
 		}
-		fmt.Printf("SELFTEST %s: %d of %d seeded changes reported\n", id, det, len(st))
+		fmt.Printf("SELFTEST %s: %d of %d seeded changes reported, %d of %d harmless edits quiet\n", id, det, nseed, quiet, nharm)
 	}
 	wall := time.Since(start).Seconds()
 	if !*noEvidence {
@@ -603,9 +609,30 @@ func selfTest(id string) []map[string]interface{} {
 	var out []map[string]interface{}
 	dirs, _ := filepath.Glob(filepath.Join(verifRoot, "seeded", id, "*", "patch.diff"))
 	sort.Strings(dirs)
+	// harmless edits that touch this property's units: they must NOT be reported
+	harmless := map[string]bool{}
+	hd, _ := filepath.Glob(filepath.Join(verifRoot, "harmless", "*", "meta.json"))
+	sort.Strings(hd)
+	for _, mf := range hd {
+		var meta struct {
+			Properties []string `json:"properties"`
+		}
+		if b, err := os.ReadFile(mf); err == nil && json.Unmarshal(b, &meta) == nil {
+			for _, pp := range meta.Properties {
+				if pp == id {
+					pd := filepath.Join(filepath.Dir(mf), "patch.diff")
+					dirs = append(dirs, pd)
+					harmless[pd] = true
+				}
+			}
+		}
+	}
 	exe, _ := os.Executable()
 	for _, pd := range dirs {
 		rec := map[string]interface{}{"mutant": filepath.Dir(pd)}
+		if harmless[pd] {
+			rec["harmless"] = true
+		}
 		tmp, err := os.MkdirTemp("", "wv_selftest_")
 		if err != nil {
 			rec["error"] = err.Error()
@@ -646,7 +673,11 @@ func selfTest(id string) []map[string]interface{} {
 					obls = append(obls, trunc(strings.TrimSpace(lines[i+1]), 160))
 				}
 			}
-			rec["detected"] = len(obls) > 0
+			if harmless[pd] {
+				rec["quiet"] = len(obls) == 0
+			} else {
+				rec["detected"] = len(obls) > 0
+			}
 			if len(obls) > 5 {
 				obls = obls[:5]
 			}
